@@ -48,3 +48,20 @@ Proof. vm_compute. reflexivity. Qed.
 Definition helpers_lock_free : bool := forallb (fun x => Nat.eqb (snd x) 0) helper_lock_calls.
 Lemma helpers_are_lock_free : helpers_lock_free = true /\ 8 <= List.length helper_lock_calls.
 Proof. split; [vm_compute; reflexivity|vm_compute; repeat constructor]. Qed.
+
+(* The helpers that the skeletons count as a READ of the table store nothing into memory they were handed - counted by
+   the translator in their bodies and, transitively, their callees' (trie.c, tommyhashlin.c, tommylist.c included).
+   Two of them fill a result array for their caller: pfx_table_node2pfx_record (5 field stores into `records`) and
+   trie_get_children (3 stores into the array it allocates and the caller's pointer to it); the only callees without
+   a body in the library are the allocator entry points. *)
+Definition reader_store_allowance (h : string) : nat :=
+  if String.eqb h "pfx_table_node2pfx_record" then 5
+  else if String.eqb h "trie_get_children" then 3 else 0.
+Definition readers_store_nothing : bool :=
+  forallb (fun x => match x with
+                    | (h, n, unk) =>
+                      Nat.eqb n (reader_store_allowance h) &&
+                      forallb (fun u => existsb (String.eqb u) ["lrtr_free"; "lrtr_realloc"; "lrtr_malloc"]) unk
+                    end) reader_helper_stores.
+Lemma readers_are_readers : readers_store_nothing = true /\ 12 <= List.length reader_helper_stores.
+Proof. split; [vm_compute; reflexivity|vm_compute; repeat constructor]. Qed.
